@@ -333,7 +333,8 @@ def t_strip(s: AStr, chars: str) -> AStr:
     strip_cl = frozenset(classify(c) for c in chars)
     removable = frozenset(k for k in strip_cl if k == "_")  # only '_' is a class of its own
     if not all(classify(c) == "_" for c in chars):
-        raise Unsupported(f"strip({chars!r})")
+        # stripping particular characters of a shared class ("/", "-", " "): conservative result - anything that could occur can now be first
+        return AStr(s.may_empty or bool(s.chars & strip_cl), s.first | s.chars, s.chars)
     may_empty = s.may_empty or bool(s.chars & removable)
     first = (s.first - removable) | ((s.chars - removable) if (s.first & removable) else frozenset())
     return AStr(may_empty, first, s.chars)
